@@ -41,4 +41,7 @@ fn(I + "evaluate", returns="ref:Individual",
                "old(ncalls(inner(self.problem))), ncalls(inner(self.problem))))", tags="C02 C03"),
             cl("keeps_otherwise", "imp(not old(needs_eval(self)), same(self.fitness, old(self.fitness)) and "
                "ncalls(inner(self.problem)) == old(ncalls(inner(self.problem))))", tags="C02 C03"),
-            cl("now_evaluated", "imp(old(needs_eval(self)), evaluated(self))", tags="C02")])
+            cl("now_evaluated", "imp(old(needs_eval(self)), evaluated(self))", tags="C02"),
+            cl("counted", "imp(instance_of(self.problem, 'EvalCountingProblem'), "
+               "cast(self.problem, 'ref:EvalCountingProblem')._n_evals - old(cast(self.problem, 'ref:EvalCountingProblem')._n_evals) "
+               ">= clock() - old(clock())) and clock() >= old(clock())", tags="C03")])
